@@ -32,6 +32,9 @@ func capOf(p *RPlan) int {
 // delivery clauses.
 func oracleC14(p *RPlan, res *RResult) *common.Fail {
 	evs := res.Events
+	if res.RetxDiff != "" {
+		return failEv(evs, len(evs)-1, "retransmission-differs", "a retransmission is not the message that was sent: %s", res.RetxDiff)
+	}
 	if res.ServeStalled > 0 {
 		unread := 0
 		for _, e := range evs {
